@@ -2,7 +2,7 @@
    Statements only; proofs are in Proofs/BeamspreadProofs.v.  All statements are
    about the real-number instance NumR of the model (exact arithmetic). *)
 From Coq Require Import List Reals.
-From Arim Require Import Base.Num Base.NumR Model.Beamspread Proofs.BeamspreadProofs.
+From Arim Require Import Base.Num Base.NumR Model.Beamspread Proofs.BeamspreadProofs Proofs.BeamspreadTube.
 Import ListNotations.
 Local Open Scope R_scope.
 
@@ -42,6 +42,18 @@ Theorem gamma_is_beta : forall c_in c_out theta cos_out,
   cos_out * cos_out = 1 - (c_out / c_in * sin theta) * (c_out / c_in * sin theta) ->
   gamma_of NumR c_in c_out theta = beta_of NumR c_in c_out (cos theta) cos_out.
 Proof. exact gamma_is_beta_R. Qed.
+
+(* beta IS the divergence law of an infinitesimal ray tube at a flat interface: the refracted
+   angle theta' = asin((c_out/c_in) sin theta) has derivative (c_out/c_in) cos theta / cos theta'
+   (Snell's law differentiated), and matching the footprint of the fan of rays on the interface
+   on both sides gives the new radius of curvature rho' = rho * beta *)
+Theorem curvature_transfer : forall c_in c_out theta rho,
+  0 < c_in -> 0 < c_out -> -1 < c_out / c_in * sin theta < 1 -> cos theta <> 0 ->
+  let theta' := asin (c_out / c_in * sin theta) in
+  derivable_pt_lim (fun t => asin (c_out / c_in * sin t)) theta (c_out / c_in * cos theta / cos theta') /\
+  tube_transfer rho (cos theta) (cos theta') (c_out / c_in * cos theta / cos theta')
+  = rho * beta_of NumR c_in c_out (cos theta) (cos theta').
+Proof. exact curvature_transfer_std. Qed.
 
 (* d = r in a single medium *)
 Theorem beamspread_single_medium : forall v r, beamspread NumR [v] [r] [] = 1 / sqrt r.
